@@ -34,6 +34,7 @@ def data():
 
 
 def lay(a, l):
+    l = {'mixed': 'column', 'mixed_rev': 'vector'}.get(l, l)     # (routines with one data array: the mixed layouts reduce to these)
     if l == 'vector':
         return a.copy()
     if l == 'column':
@@ -91,8 +92,8 @@ def build(emd, ep, l, D, opts):
         return (lambda: C.get_cycle_vector(a, return_good=False)), [a]
     short = slice(0, N - 3)
     if ep == 'hilberthuang':
-        f = lay(D['infr'], 'vector' if l == 'mismatch' else l)
-        am = lay(D['inam'], 'vector' if l == 'mismatch' else l)
+        f = lay(D['infr'], {'mismatch': 'vector', 'mixed': 'column', 'mixed_rev': 'vector'}.get(l, l))
+        am = lay(D['inam'], {'mismatch': 'vector', 'mixed': 'vector', 'mixed_rev': 'column'}.get(l, l))
         if l == 'mismatch':
             am = am[short].copy()
         e = D['edges'].copy()
@@ -118,8 +119,8 @@ def build(emd, ep, l, D, opts):
             v = v[short].copy()
         return (lambda: C.get_cycle_stat(lab, v, func=np.sum)), [lab, v]
     if ep == 'phase_align':
-        ip = lay(D['ph'], 'vector' if l == 'mismatch' else l)
-        v = lay(x, 'vector' if l == 'mismatch' else l)
+        ip = lay(D['ph'], {'mismatch': 'vector', 'mixed': 'column', 'mixed_rev': 'vector'}.get(l, l))
+        v = lay(x, {'mismatch': 'vector', 'mixed': 'vector', 'mixed_rev': 'column'}.get(l, l))
         if l == 'mismatch':
             v = v[short].copy()
         return (lambda: C.phase_align(ip, v, npoints=8)), [ip, v]
@@ -145,7 +146,7 @@ def build(emd, ep, l, D, opts):
             return (lambda: S.sift_second_layer(IA, sift_args=so)), [IA]
         mf = np.array([.2, .1, .05])
         return (lambda: S.mask_sift_second_layer(IA, mf, sift_args=so)), [IA, mf]
-    if ep in ('get_cycle_stat_obj', 'phase_align_obj', 'get_control_points_obj'):
+    if ep in ('get_cycle_stat_obj', 'phase_align_obj', 'get_control_points_obj', 'phase_align_reused_iterator'):
         Cobj = C.Cycles(D['ph'].copy())
         v = lay(x, 'vector' if l == 'mismatch' else l)
         ip = D['ph'].copy()
@@ -156,6 +157,15 @@ def build(emd, ep, l, D, opts):
             return (lambda: C.get_cycle_stat(Cobj, v, func=np.sum)), [v]
         if ep == 'phase_align_obj':
             return (lambda: C.phase_align(ip, v, cycles=Cobj, npoints=8)), [ip, v]
+        if ep == 'phase_align_reused_iterator':
+            # one IterateCycles object serves an augmented-mode call and then the default call whose result is returned:
+            # the mode ARGUMENT governs each call, nothing is left behind in the iterator (reference: phase_align_obj)
+            it = Cobj.iterate()
+
+            def two_calls():
+                C.phase_align(ip, v, cycles=it, npoints=8, mode='augmented')
+                return C.phase_align(ip, v, cycles=it, npoints=8)
+            return two_calls, [ip, v]
         return (lambda: C.get_control_points(v, Cobj)), [v]
     raise ValueError(ep)
 
@@ -226,7 +236,7 @@ def replay(emd, hist, verdicts, D, ref, edited=False):
         if want == 'accept':
             if r['outcome'] != 'returned':
                 return what + ': must be accepted but %s' % (r['exc'])
-            if r['digest'] != ref[ep]:
+            if r['digest'] != ref[REF_OF.get(ep, ep)]:
                 return what + ': result differs from the reference result of this routine (layout / history dependent)'
         else:
             if r['outcome'] == 'returned':
@@ -247,7 +257,8 @@ def reference(emd, D):
     return ref
 
 
-EPS = ['sift_second_layer', 'mask_sift_second_layer', 'get_cycle_stat_obj', 'phase_align_obj', 'get_control_points_obj', 'sift', 'ensemble_sift', 'complete_ensemble_sift', 'mask_sift', 'get_next_imf', 'get_next_imf_mask', 'interp_envelope',
+REF_OF = {'phase_align_reused_iterator': 'phase_align_obj'}
+EPS = ['phase_align_reused_iterator', 'sift_second_layer', 'mask_sift_second_layer', 'get_cycle_stat_obj', 'phase_align_obj', 'get_control_points_obj', 'sift', 'ensemble_sift', 'complete_ensemble_sift', 'mask_sift', 'get_next_imf', 'get_next_imf_mask', 'interp_envelope',
        'get_padded_extrema', 'is_imf', 'frequency_transform', 'get_cycle_vector', 'hilberthuang', 'hilberthuang_1d', 'holospectrum',
        'get_cycle_stat', 'phase_align', 'bin_by_phase', 'amplitude_normalise', 'amplitude_normalise_3d', 'frequency_transform_nht_3d']
 
